@@ -345,6 +345,77 @@ fn wiring<Ctx: crate::terms::Cx>(rep: &Report, ctx: &'static str, n: usize, tap:
     (att.load(Ordering::Relaxed), acc.load(Ordering::Relaxed))
 }
 
+/// The leaf constructors (`Miniscript::pk_k`, `expr_raw_pkh`, `multi_a`, ... used by the parsers and
+/// the decoder) must store the type and extra data that `from_ast` computes for the same terminal.
+fn leaf_constructors<Ctx: crate::terms::Cx>(rep: &Report, ctx: &'static str) -> u64 {
+    use miniscript::{AbsLockTime, RelLockTime};
+    let k = |i: usize| format!("K{}", i);
+    let h = "H".to_string();
+    let raw = <bitcoin::hashes::hash160::Hash as bitcoin::hashes::Hash>::hash(b"x");
+    let mut pairs: Vec<(&'static str, Miniscript<String, Ctx>, Terminal<String, Ctx>)> = vec![
+        ("pk_k", Miniscript::pk_k(k(1)), Terminal::PkK(k(1))),
+        ("pk_h", Miniscript::pk_h(k(1)), Terminal::PkH(k(1))),
+        ("expr_raw_pkh", Miniscript::expr_raw_pkh(raw), Terminal::RawPkH(raw)),
+        ("sha256", Miniscript::sha256(h.clone()), Terminal::Sha256(h.clone())),
+        ("hash256", Miniscript::hash256(h.clone()), Terminal::Hash256(h.clone())),
+        ("ripemd160", Miniscript::ripemd160(h.clone()), Terminal::Ripemd160(h.clone())),
+        ("hash160", Miniscript::hash160(h.clone()), Terminal::Hash160(h.clone())),
+    ];
+    for v in [1u32, 16, 17, 65535, 65536, 4194305, 500_000_000, 0x7fff_ffff] {
+        if let Ok(t) = AbsLockTime::from_consensus(v) {
+            pairs.push(("after", Miniscript::after(t), Terminal::After(t)));
+        }
+        if let Ok(t) = RelLockTime::from_consensus(v) {
+            pairs.push(("older", Miniscript::older(t), Terminal::Older(t)));
+        }
+    }
+    for n in [1usize, 2, 3, 16, 17, 20] {
+        for kk in [1usize, 2, n] {
+            if kk > n {
+                continue;
+            }
+            let keys: Vec<String> = (1..=n).map(k).collect();
+            if let Ok(th) = Threshold::new(kk, keys.clone()) {
+                pairs.push(("multi", Miniscript::multi(th.clone()), Terminal::Multi(th.clone())));
+                pairs.push(("sortedmulti", Miniscript::sortedmulti(th.clone()), Terminal::SortedMulti(th)));
+            }
+            if let Ok(th) = Threshold::new(kk, keys) {
+                pairs.push(("multi_a", Miniscript::multi_a(th.clone()), Terminal::MultiA(th.clone())));
+                pairs.push(("sortedmulti_a", Miniscript::sortedmulti_a(th.clone()), Terminal::SortedMultiA(th)));
+            }
+        }
+    }
+    // pk / pkh sugar = c:pk_k / c:pk_h
+    pairs.push(("pk", Miniscript::pk(k(1)), Terminal::Check(Arc::new(Miniscript::pk_k(k(1))))));
+    pairs.push(("pkh", Miniscript::pkh(k(1)), Terminal::Check(Arc::new(Miniscript::pk_h(k(1))))));
+    let mut n = 0;
+    for (name, built, term) in pairs {
+        n += 1;
+        let ty = Type::type_check(&term);
+        let ext = ExtData::type_check(&term);
+        let same_node = built.node == term;
+        match ty {
+            Ok(ty) => {
+                if built.ty != ty || built.ext != ext || !same_node {
+                    rep.violation(Violation {
+                        key: format!("C05|leaf-constructor|{}|{}|{}", ctx, name, built),
+                        class: format!("leaf-constructor-{}", name),
+                        what: format!("Miniscript::{}(..) stores type {} / node {}, the type checker gives {} for that terminal{}", name, ST::from_lib(&built.ty).letters(), built, ST::from_lib(&ty).letters(), if built.ext != ext { " (extra data differ)" } else { "" }),
+                        case: json!({"ctx": ctx, "constructor": name, "fragment": built.to_string()}),
+                    });
+                }
+            }
+            Err(e) => rep.violation(Violation {
+                key: format!("C05|leaf-constructor-illtyped|{}|{}", ctx, name),
+                class: format!("leaf-constructor-{}", name),
+                what: format!("type_check rejects the terminal built by the constructor: {}", e),
+                case: json!({"ctx": ctx, "constructor": name}),
+            }),
+        }
+    }
+    n
+}
+
 pub fn run(tier: Tier) -> i32 {
     let rep = Report::new("C05", tier);
     let all = all_lib_types();
@@ -457,6 +528,8 @@ pub fn run(tier: Tier) -> i32 {
         w_att += a;
         w_acc += b;
     }
+    let lc = leaf_constructors::<Segwitv0>(&rep, "segwitv0") + leaf_constructors::<miniscript::Tap>(&rep, "tap") + leaf_constructors::<miniscript::Legacy>(&rep, "legacy") + leaf_constructors::<miniscript::BareCtx>(&rep, "bare");
+    rep.count("leaf_constructor_checks", lc);
     rep.count("wiring_constructor_applications", w_att);
     rep.count("wiring_accepted_terms", w_acc);
     rep.count("tuples", ctr.tuples.load(Ordering::Relaxed));
